@@ -413,6 +413,26 @@ V("PT4-channel-data-by-name", "C16", "PT4",
 V("PT1-benign-doubling-by-hand", "C16", None,
   ("common.py", "    @property\n    def is_root(self):", "    def _describe(self):\n        return \"group=%r channel=%r\" % (self.group, self.channel)\n\n    @property\n    def is_root(self):"))
 
+V("PT3-single-quote-test-first", "C16", "PT3",
+  ("common.py", "                if char == \"'\" and next_char == \"'\":\n                    component += \"'\"\n                    # Consume second \"'\"\n                    next(chars)\n                elif char == \"'\":\n                    yield \"\".join(component)\n                    break\n",
+   "                if char == \"'\" and next_char != \"'\" or char == \"'\" and next_char is None:\n                    yield \"\".join(component)\n                    break\n                elif char == \"'\":\n                    component += \"''\"\n                    next(chars)\n"))
+V("PT3-quote-ends-component-always", "C16", "PT3",
+  ("common.py", "                if char == \"'\" and next_char == \"'\":\n                    component += \"'\"\n                    # Consume second \"'\"\n                    next(chars)\n                elif char == \"'\":\n",
+   "                if char == \"'\":\n"))
+V("PT3-other-quote-character", "C16", "PT3",
+  ("common.py", "            elif next_char is not None and next_char != \"'\":\n", "            elif next_char is not None and next_char != '\"':\n"))
+V("PT4-groups-keyed-by-path", "C16", "PT4",
+  ("tdms.py", "            self._groups[group_name] = TdmsGroup(group_path, properties, channels)\n", "            self._groups[str(group_path)] = TdmsGroup(group_path, properties, channels)\n"))
+V("PT4-group-properties-by-group-path", "C16", "PT4",
+  ("tdms.py", "                group_properties[path.group] = properties\n", "                group_properties[path_string] = properties\n"))
+V("PT4-implicit-group-from-path", "C16", "PT4",
+  ("writer.py", "            path_object_pairs.extend((ObjectPath(g), GroupObject(g)) for g in groups_to_add)\n",
+   "            path_object_pairs.extend((ObjectPath(g), GroupObject(str(ObjectPath(g)))) for g in groups_to_add)\n"))
+V("PT2-name-stripped", "C16", "PT2",
+  ("tdms.py", "                group_properties[path.group] = properties\n", "                group_properties[path.group.strip()] = properties\n"))
+V("PT4-benign-renamed-locals", "C16", None,
+  ("tdms.py", "                group_properties[path.group] = properties\n", "                gname = path.group\n                group_properties[gname] = properties\n"))
+
 # ---------------------------------------------------------------- C18 (TB1-TB5)
 V("TB1-boundary-moved", "C18", ["TB1", "TB3"],
   ("thermocouples.py", "            applicable_range=Range(630.615, None),", "            applicable_range=Range(630.715, None),"))
